@@ -16,7 +16,11 @@ except Exception as e:
 es = json.load(open('/root/.vp/EVIDENCE.schema.json'))
 for f in sorted(glob.glob('/verif/evidence/*.json')):
     try:
-        jsonschema.validate(json.load(open(f)), es); print('ok', f)
+        ev = json.load(open(f))
+        jsonschema.validate(ev, es)
+        if ev.get('level') == 'proof' and ev['coverage'].get('discharged') != ev['coverage'].get('obligations'):
+            raise Exception('proof level: discharged %s != obligations %s' % (ev['coverage'].get('discharged'), ev['coverage'].get('obligations')))
+        print('ok', f)
     except Exception as e:
         ok = False; print('INVALID', f, str(e)[:300])
 sys.exit(0 if ok else 1)
